@@ -93,7 +93,7 @@ def write_variant(d, desc, hist, metas, order):
     os.makedirs(os.path.join(d, "cfg"), exist_ok=True)
 
 
-CONTRA = ["two-appids", "two-ranks", "two-nranks", "rank>=nranks", "index-two-phyids", "phyid-two-indices",
+CONTRA = ["index-two-phyids-early", "phyid-two-indices-early", "two-appids", "two-ranks", "two-nranks", "rank>=nranks", "index-two-phyids", "phyid-two-indices",
           "duplicate-tid", "no-cpus", "no-appid", "index-gap", "negative-index", "negative-rank", "appid-zero",
           "rank-missing-in-one-proc", "nranks-missing"]
 
@@ -125,9 +125,29 @@ def contradiction(rng, desc, metas, kind):
     elif kind == "rank>=nranks":
         k = pk[0]
         metas[k]["ovni"]["rank"] = 64; metas[k]["ovni"]["nranks"] = 64
+    elif kind in ("index-two-phyids-early", "phyid-two-indices-early"):
+        # sparse per-thread lists: the two conflicting entries are the only
+        # CPUs of the first two streams the emulator loads (relpath order), the
+        # rest of the loom's CPUs arrive later
+        order = sorted(lk, key=lambda k: "loom.%s/proc.%d/thread.%d" % k)
+        if len(order) < 3 or len(l["cpus"]) < 2:
+            return False
+        i, ph = max(l["cpus"])
+        for k in lk:
+            metas[k]["ovni"].pop("loom_cpus", None)
+        if kind == "index-two-phyids-early":
+            a, b = {"index": i, "phyid": ph}, {"index": i, "phyid": ph + 500}
+        else:
+            a, b = {"index": i, "phyid": ph}, {"index": i + 1, "phyid": ph}
+        metas[order[0]]["ovni"]["loom_cpus"] = [a]
+        metas[order[1]]["ovni"]["loom_cpus"] = [b]
+        rest = [{"index": ci, "phyid": cp} for (ci, cp) in l["cpus"] if ci != i]
+        if kind == "phyid-two-indices-early":
+            rest.append({"index": i + 2, "phyid": 900})   # keep indices in bounds
+        metas[order[2]]["ovni"]["loom_cpus"] = rest
     elif kind == "index-two-phyids":
         k = rng.choice(lk)
-        i, ph = l["cpus"][0]
+        i, ph = rng.choice(l["cpus"])
         metas[k]["ovni"].setdefault("loom_cpus", []).append({"index": i, "phyid": 999})
     elif kind == "phyid-two-indices":
         k = rng.choice(lk)
